@@ -527,7 +527,8 @@ where
                 let rhs_u = *rhs.u();
                 let lhs_sum_b = V::one() - lhs_u;
                 let rhs_sum_b = V::one() - rhs_u;
-                let temp = lhs_u + rhs_u - (V::one() + V::one()) * lhs_u * rhs_u;
+                // u_l + u_r - 2 u_l u_r without cancellation for nearly vacuous operands
+                let temp = rhs_u * lhs_sum_b + lhs_u * rhs_sum_b;
                 let b = T::from_fn(|i| {
                     (lhs.b()[i] * lhs_sum_b * rhs_u + rhs.b()[i] * rhs_sum_b * lhs_u) / temp
                 });
@@ -570,9 +571,10 @@ where
             FuseOp::ACm | FuseOp::ECm => {
                 let lhs_u = lhs.u();
                 let rhs_u = rhs.u();
-                let temp = lhs_u + rhs_u - lhs_u * rhs_u * (V::one() + V::one());
                 let lhs_sum_b = V::one() - lhs_u;
                 let rhs_sum_b = V::one() - rhs_u;
+                // u_l + u_r - 2 u_l u_r without cancellation for nearly vacuous operands
+                let temp = rhs_u * lhs_sum_b + lhs_u * rhs_sum_b;
                 T::from_fn(|i| {
                     if ulps_eq!(lhs.base_rate[i], rhs.base_rate[i]) {
                         lhs.base_rate[i]
